@@ -30,6 +30,31 @@ int main(int argc, char **argv) {
     zckCtx *z = zck_create();
     int type; long off, len; char mode; unsigned long param;
     while(fscanf(cf, "%d %ld %ld %c %lu", &type, &off, &len, &mode, &param) == 5) {
+        if(mode == 'H') {
+            /* one single update call over a contiguous buffer of <len> bytes (the message file repeated cyclically) */
+            zckHashType t = {0};
+            zckHash h = {0};
+            if(!hash_setup(z, &t, type) || !hash_init(z, &h, &t)) { fprintf(of, "ERR-setup 0 0\n"); zck_clear_error(z); continue; }
+            char *big = malloc(len ? len : 1);
+            if(!big) { fprintf(of, "ERR-alloc 0 0\n"); continue; }
+            for(long pos = 0; pos < len; pos += ml) {
+                memcpy(big + pos, msg, (len - pos) < ml ? (size_t)(len - pos) : (size_t)ml);
+                /* every block starts with its own number: the buffer is not periodic, so hashing the wrong part of it shows */
+                uint64_t j = (uint64_t)(pos / ml);
+                if(len - pos >= 8) memcpy(big + pos, &j, 8);
+            }
+            int ok = hash_update(z, &h, big, len);
+            char *d = ok ? hash_finalize(z, &h) : NULL;
+            if(!d) fprintf(of, "ERR-final 0 1\n");
+            else {
+                for(int i = 0; i < t.digest_size; i++) fprintf(of, "%02x", (unsigned char)d[i]);
+                fprintf(of, " %d 1\n", t.digest_size);
+                free(d);
+            }
+            hash_close(&h);
+            free(big);
+            continue;
+        }
         if(mode == 'G') {
             zckHashType t = {0};
             zckHash h = {0};
